@@ -659,7 +659,7 @@ UNFINISHED = [TransferState.QUEUED, TransferState.DOWNLOADING, TransferState.INC
               TransferState.INITIALIZING, TransferState.VIRGIN]
 
 
-def h_cycles(c, ncycles=2, timing='coarse', calls=('t0', 'u0'), max_fail=0):
+def h_cycles(c, ncycles=2, call_timing='coarse', cycle_timing='all', calls=('t0', 'u0'), max_fail=0):
     """the transfer manager as the source of the TRANSFER reason: real
     TransferManager.manage_user_tracking over 3 transfers of 2 users whose (un)finished status is
     chosen per cycle, mixed with direct calls carrying symbolic flags (one before each cycle)."""
@@ -674,10 +674,10 @@ def h_cycles(c, ncycles=2, timing='coarse', calls=('t0', 'u0'), max_fail=0):
     for k in range(ncycles):
         if k < len(calls):
             ev = calls[k]
-            env.goto(2 * k, timing if k else 'now')
+            env.goto(2 * k, call_timing if k else 'now')
             sc.check_not_ahead(f'before call {k}')
             sc.call(2 * k, ev[0], int(ev[1]), flags[k])
-        env.goto(2 * k + 1, timing)
+        env.goto(2 * k + 1, cycle_timing)
         sc.check_not_ahead(f'before cycle {k}')
         fin = []
         for j, t in enumerate(tm._transfers):
@@ -735,12 +735,6 @@ def prelude(tier):
                 assert val(x == y) == (fa == fb) and val(x != y) == (fa != fb)
                 n += 6
             assert (fb in sa) == (fb in fa) and val(flag_eq(sa, fb)) == (fa == fb)
-    # the dataclass methods of the code under test accept the proxy
-    tu = TrackedUser(user=None)
-    tu.add_flag(SFlag(z3.BitVecVal(5, NBITS)))
-    tu.remove_flag(SFlag(z3.BitVecVal(4, NBITS)))
-    assert val(tu.flags) == 1
-    assert DOC_RETRY['send_failure'] == 10 and DOC_RETRY['not_exists'] == 600
     return [f'SFlag proxy agrees with enum.Flag on {n} concrete operations (|, &, ^, & ~, ==, !=, ~, bool, in; direct and reflected)']
 
 
@@ -847,19 +841,18 @@ def jobs(tier):
                 out.append(_job('two_users', s, ['now', second, F]))
         else:
             out.append(_job('two_users', s, ['now', F, F]))
-    # D: longer histories: coarse timing for the prefix, the last call(s) at every loop step
+    # D: longer histories: coarse timing for the prefix, the last call at every loop step
     if quick:
         for s in _seqs(4):
             for pre in (['now', 'now'], ['all', 'all'], ['settle', 'quiet']):
                 out.append(_job('history', s, ['now'] + pre + [F]))
     else:
-        for s in _seqs(4):
-            out.append(_job('history', s, ['now', C, C, F], max_fail=2))
         for s in _seqs(5):
-            for a in ('now', 'quiet', 'settle', 'all'):
+            for a in ('now', 'settle'):
                 out.append(_job('history', s, ['now', a, C, C, F]))
         for s in _seqs(4, nusers=2):
-            out.append(_job('history', s, ['now', C, C, F]))
+            for a in ('now', 'all'):
+                out.append(_job('history', s, ['now', a, C, F]))
         for s in _seqs(6):
             for pre in (['now'] * 4, ['all'] * 4, ['settle', 'quiet', 'all', 'now'], ['quiet', 'all', 'now', 'settle']):
                 out.append(_job('history', s, ['now'] + pre + [F]))
@@ -869,20 +862,22 @@ def jobs(tier):
             out.append(_job('burst', s, ['now'] * n))
             out.append(_job('sequential', s, ['now'] + ['all'] * (n - 1)))
     # F: more faults: several failed attempts in a row, RemoveUser write errors, listeners that suspend
-    for s in _seqs(2) + ([] if quick else _seqs(3)):
-        n = len(s)
-        out.append(_job('faults', s, ['now'] + [F] * (n - 1), max_fail=2 if quick else 3))
-        out.append(_job('faults', s, ['now'] + [F] * (n - 1), rm_fail=True))
-        out.append(_job('faults', s, ['now'] + [F] * (n - 1), slow=True))
-    if quick:
-        for s in (['t0', 'u0', 't0'], ['t0', 't0', 'u0']):
-            out.append(_job('faults', s, ['now', 'settle', F], max_fail=2))
-            out.append(_job('faults', s, ['now', C, F], rm_fail=True))
-            out.append(_job('faults', s, ['now', C, F], slow=True))
+    for s in _seqs(2):
+        out.append(_job('faults', s, ['now', F], max_fail=2 if quick else 3))
+        out.append(_job('faults', s, ['now', F], rm_fail=True))
+        out.append(_job('faults', s, ['now', F], slow=True))
+    for s in (['t0', 'u0', 't0'], ['t0', 't0', 'u0']) if quick else _seqs(3):
+        out.append(_job('faults', s, ['now', 'settle', F] if quick else ['now', C, F], max_fail=2 if quick else 3))
+        out.append(_job('faults', s, ['now', C, F] if quick else ['now', F, F], rm_fail=True))
+        out.append(_job('faults', s, ['now', C, F] if quick else ['now', F, F], slow=True))
     # G: the transfer manager as the source of the TRANSFER reason
-    for calls in (['t0', 'u0'], ['t1', 'u1']) if quick else (['t0', 'u0', 't0'], ['t1', 'u1', 't1'], ['t0', 't1', 'u0']):
+    for calls in (['t0', 'u0'], ['t1', 'u1']) if quick else (['t0', 'u0', 't0'], ['t1', 'u1', 't0']):
         out.append({'harness': 'cycles', 'fn': h_cycles,
-                    'params': {'ncycles': 2 if quick else 3, 'timing': 'all' if quick else 'coarse', 'calls': calls,
-                               'max_fail': 0 if quick else 1},
+                    'params': {'ncycles': 2 if quick else 3, 'call_timing': 'all' if quick else C, 'cycle_timing': 'all',
+                               'calls': calls, 'max_fail': 0},
+                    'requires': ['cycle', 'settled', 'end']})
+    if not quick:
+        out.append({'harness': 'cycles', 'fn': h_cycles,
+                    'params': {'ncycles': 2, 'call_timing': C, 'cycle_timing': C, 'calls': ['t0', 'u0'], 'max_fail': 1},
                     'requires': ['cycle', 'settled', 'end']})
     return out
